@@ -97,7 +97,10 @@ theorem xml_lex_roundtrip : type_of% @Verif.Proofs.C09Xml.xml_lex_roundtrip := @
 theorem xml_lex_sound : type_of% @Verif.Proofs.C09Xml.xml_lex_sound := @Verif.Proofs.C09Xml.xml_lex_sound
 
 /-- **XML, bytes level, no guard**: for every byte string the independent tokeniser accepts, the output of the model of
-    `xml.Minify` on its tokens is accepted again and re-tokenises to exactly the intended stream -/
+    `xml.Minify` on its tokens is accepted again and re-tokenises to exactly the intended stream.  NOTE the front end here is
+    the SPECIFICATION tokeniser (PI data is one raw item); the real dependency lexer splits PI data into pseudo-attributes
+    and deviates on DOCTYPE/PI corner cases (K-C09-Xml-1, -4, -5) — for streams of the real lexer's shape use the guarded
+    `xml_output_relexes_partial` -/
 theorem xml_accepted_in_accepted_out : type_of% @Verif.Proofs.C09Xml.xml_accepted_in_accepted_out :=
   @Verif.Proofs.C09Xml.xml_accepted_in_accepted_out
 
